@@ -272,7 +272,13 @@ class Check:
                 if r.error:
                     raise ToolError("%s: TLC error validating %s: %s" % (label, driver, r.error))
                 if not r.violated:
-                    if r.distinct != len(events) + 1:
+                    if stateful:
+                        expect = len(events) + 1
+                    else:
+                        cm = re.search(r"ChunkSize\s*=\s*(\d+)", open(os.path.join(VERIF, "spec", cfg)).read())
+                        chunk = int((consts_extra or {}).get("ChunkSize", cm.group(1) if cm else 1))
+                        expect = 1 + len(events) + (len(events) + chunk - 1) // chunk     # initial + chunk entries + events
+                    if r.distinct != expect:
                         raise ToolError("%s: trace not consumed completely (%d states for %d events)"
                                         % (label, r.distinct, len(events)))
                     break
